@@ -83,7 +83,14 @@ func cliCellName(cell int) string {
 	return "client returning (" + strings.Join(s, ", ") + ")"
 }
 
+var (
+	client *core.Client
+	canned []byte
+)
+
 func setupRPC() {
+	client = core.NewClient()
+	client.Use(func(ctx context.Context, request []byte, next core.NextIOHandler) ([]byte, error) { return canned, nil })
 	a := core.NewService()
 	a.AddFunction(func(x int) int { return x }, "f")
 	a.AddFunction(func(s string, xs []int) string { return s }, "g")
@@ -191,9 +198,12 @@ func runCell(domain string, cell int, input []byte) outcome {
 		}
 	case "cli":
 		f = func() {
+			// the response arrives at a client: an IO plugin answers every request with the bytes under test, the
+			// client decodes them with its codec for the return types of this cell
 			cc := core.NewClientContext()
 			cc.ReturnType = cliReturn[cell]
-			_, err = core.NewClientCodec().Decode(input, cc)
+			canned = input
+			_, err = client.InvokeContext(core.WithContext(context.Background(), cc), "f", nil)
 		}
 	}
 	msg, pcs := guard(f)
